@@ -34,17 +34,16 @@ def apply_moves(b, sym, files, step, dirs):
     return moves
 
 
-def scenario(tier):
-    steps = 1 if tier == "quick" else 2
+def scenario(tier, steps, four=False, lean=False):
 
     def fn(b, sym):
         dirs = ["R", "R/d", "R/d/e"]
         files = {"R/a.txt": 1, "R/d/b.txt": 2, "R/d/e/c.txt": 3}
-        if tier != "quick":
+        if four:
             files["R/b2.txt"] = 4
         for f, c in files.items():
             b.mkfile(f, c)
-        fmts = sym.choose("formats", [["md5"], ["xxh64", "c4"]])
+        fmts = sym.choose("formats", [["md5"], ["xxh64", "c4"]]) if not lean else ["md5"]
         r = b.run("create", root="R", h=fmts)
         b.require(r.exit == 0, "setup-create", str(r))
         rel = lambda p: posixpath.relpath(p, "R")
@@ -53,11 +52,11 @@ def scenario(tier):
             moves = apply_moves(b, sym, cur, step, dirs)
             if not moves and step > 0:
                 break
-            extra = sym.flag("unrelated_new_file%d" % step)
+            extra = sym.flag("unrelated_new_file%d" % step) if not lean else False
             if extra:
                 b.mkfile("R/d/brand new %d.bin" % step, 50 + step)
             b.note("step %d moves %s" % (step, {rel(k): rel(v) for k, v in moves.items()}))
-            if step == 0 and moves and sym.flag("control_without_dr"):
+            if step == 0 and moves and not lean and sym.flag("control_without_dr"):
                 # without -dr the same tree is reported as missing plus new
                 r = b.run("verify", root="R")
                 ml = missing_lines(r)
@@ -92,7 +91,7 @@ def scenario(tier):
                           % (cmd, step, {rel(k): rel(v) for k, v in moves.items()}, r2.exit, r2.exc, (r2.err + r2.out)[:3]))
         # verify still fails if a renamed file's content is changed as well
         renamed_now = [f for f in cur if posixpath.basename(f).startswith("ren")]
-        if renamed_now and sym.flag("then_alter_renamed"):
+        if renamed_now and (lean or sym.flag("then_alter_renamed")):
             b.alter(sorted(renamed_now)[0], 77)
             r = b.run("verify", root="R")
             b.require(r.exit == 11, "renamed-and-changed-fails", "verify after altering %s: %s" % (rel(sorted(renamed_now)[0]), r))
@@ -100,9 +99,14 @@ def scenario(tier):
 
 
 def harnesses(tier):
-    return [Harness("c17-renames", scenario(tier), frontier=6, budget_s=2400,
-                    what="3 (quick) / 4 (thorough) files with distinct contents in 3 directories; every combination of stay / rename in place / move to "
-                         "another directory per file, optional unrelated new file; create -dr, then verify / diff / create; control without -dr; "
-                         "then alter a renamed file; thorough: a second rename step one generation later",
-                    bounds={"files": "3 / 4", "rename steps": "1 (quick) / 2 (thorough)", "formats": "md5 | xxh64+c4"},
-                    outside=["directory renames", "renames across history boundaries", "-n generations", "files with identical contents"])]
+    out = ["directory renames", "renames across history boundaries", "-n generations", "files with identical contents"]
+    hs = [Harness("c17-renames", scenario(tier, 1, tier != "quick"), frontier=6, budget_s=2400,
+                  what="3 (quick) / 4 (thorough) files with distinct contents in 3 directories; every combination of stay / rename in place / move to "
+                       "another directory per file, optional unrelated new file; create -dr, then verify / diff / create; control without -dr; "
+                       "then alter a renamed file",
+                  bounds={"files": "3 / 4", "rename steps": 1, "formats": "md5 | xxh64+c4"}, outside=out),
+          Harness("c17-two-steps", scenario(tier, 2, lean=(tier == "quick")), frontier=6, budget_s=2400,
+                  what="the same with 3 files and a second rename step one generation later (a file renamed again keeps its identity)",
+                  bounds={"files": 3, "rename steps": 2, "quick": "format md5, no unrelated files"},
+                  outside=out)]
+    return hs
